@@ -618,6 +618,15 @@ func checkVerifier(c *Ctx, fn *ssa.Function) {
 	okEM := (strings.HasPrefix(emx, "call<(*math/big.Int).Bytes>(call<"+RepoMod+"/attestation/yubiattest.") && strings.Contains(emx, ",p0,call<(*math/big.Int).SetBytes>(alloc<math/big.Int>,p3))")) ||
 		emx == "call<(*math/big.Int).Bytes>(call<(*math/big.Int).Exp>(alloc<math/big.Int>,call<(*math/big.Int).SetBytes>(alloc<math/big.Int>,p3),call<math/big.NewInt>(conv<int64>(p0.E)),p0.N))"
 	c.Check(okEM, "R4.verifier", "verifier|EM is the signature raised with the device key", w.Pos(emIns.Pos()), "leftPad(encrypt(pub, SetBytes(sig)).Bytes(), k)", "the encoded message is not derived from the signature and the device key as expected: "+shortName(emx))
+	// the helper form: what the helper hands back is the exponentiation's result on every path (no other source such
+	// as a memoised value), and nothing else writes the big.Int holding it
+	if bc, ok := strip(emSrc).(*ssa.Call); ok && calleeName(bc) == "(*math/big.Int).Bytes" && len(bc.Call.Args) == 1 {
+		if hc, isCall := throughCell(strip(bc.Call.Args[0])).(*ssa.Call); isCall {
+			if h := hc.Call.StaticCallee(); h != nil && w.InRepo(h) && h.Blocks != nil {
+				c06OnlyExp(c, w, h)
+			}
+		}
+	}
 	// size guard
 	guard := f.Any(emIns.Block(), func(l Lit) bool {
 		bin, ok := l.V.(*ssa.BinOp)
@@ -1178,3 +1187,54 @@ func isBoolOrInt(t types.Type) bool {
 }
 
 var paramRE = regexp.MustCompile(`\bp[0-9]+\b`)
+
+// c06OnlyExp: helper h (the public-key operation) returns, on every path, the result of a (*big.Int).Exp call made
+// on that path - the call's value or its receiver - and no other method writes that receiver.
+func c06OnlyExp(c *Ctx, w *World, h *ssa.Function) {
+	var exps []*ssa.Call
+	for _, call := range callsIn(h) {
+		if cv, ok := call.(*ssa.Call); ok && calleeName(cv) == "(*math/big.Int).Exp" && len(cv.Call.Args) == 4 {
+			exps = append(exps, cv)
+		}
+	}
+	if len(exps) == 0 {
+		return // the exponentiation sits deeper; the census of Exp calls below covers its arguments
+	}
+	c.Saw(h)
+	key := shortFn(h) + "|returns the exponentiation's result on every path"
+	for _, r := range liveReturns(h) {
+		if len(r.Results) == 0 {
+			continue
+		}
+		good := true
+		for _, lf := range w.leaves(r.Results[0], r, false) {
+			v := throughCell(strip(lf.Val))
+			ok := false
+			for _, e := range exps {
+				if (v == ssa.Value(e) || v == throughCell(strip(e.Call.Args[0]))) && InstrDominates(e, r) {
+					ok = true
+				}
+			}
+			if !ok {
+				good = false
+			}
+		}
+		c.Check(good, "R4.verifier", key, w.Pos(r.Pos()), "every value returned is c.Exp(...) computed on that path", shortFn(h)+" can hand back a value that was not computed by the exponentiation on this path (a memoised or defaulted result): the encoded message would not be sig^e mod N of this key")
+	}
+	for _, e := range exps {
+		recv := throughCell(strip(e.Call.Args[0]))
+		for _, call := range callsIn(h) {
+			cv, ok := call.(*ssa.Call)
+			if !ok || cv == e || len(cv.Call.Args) == 0 || throughCell(strip(cv.Call.Args[0])) != recv {
+				continue
+			}
+			callee := cv.Call.StaticCallee()
+			if callee == nil || !strings.HasPrefix(fnName(callee), "(*math/big.Int).") {
+				continue
+			}
+			if res := callee.Signature.Results(); res.Len() == 1 && strings.HasSuffix(res.At(0).Type().String(), "math/big.Int") {
+				c.Bad("R4.verifier", shortFn(h)+"|only the exponentiation writes its result", w.Pos(cv.Pos()), "the big.Int receiving the exponentiation is also written by "+shortName(fnName(callee)))
+			}
+		}
+	}
+}
